@@ -446,7 +446,8 @@ class Lowerer:
         node = func_ast(fn)
         ret_nodes = [n for n in ast.walk(node) if isinstance(n, ast.Return)]
         chosen = None
-        if self.split_mode and len(ret_nodes) >= 2 and self.call_key is not None and not is_generator(fn):
+        if self.split_mode and len(ret_nodes) >= 2 and self.call_key is not None and not is_generator(fn) and \
+                not getattr(self, "no_split", 0):
             key = self.call_key
             if key in self.site_choice:
                 chosen = ret_nodes[self.site_choice[key]]
@@ -768,10 +769,18 @@ class Lowerer:
         if isinstance(s, ast.While):
             before = self.snapshot_locals()
             self.push()
-            self.expr(s.test)
+            self.no_split = getattr(self, "no_split", 0) + 1
+            try:
+                self.expr(s.test)
+            finally:
+                self.no_split -= 1
             body, j = self.block(s.body)
             self.emit(body)
-            self.expr(s.test)
+            self.no_split += 1
+            try:
+                self.expr(s.test)
+            finally:
+                self.no_split -= 1
             ir = self.pop()
             self.merge_locals(before, self.snapshot_locals())
             # second pass so that types merged at the loop head are what the body saw is not needed:
@@ -923,7 +932,10 @@ class Lowerer:
                 base.attrs[target.attr] = PRIM if av.is_prim() else v.ty
             return
         if isinstance(target, ast.Subscript):
-            base = self.materialise(self.expr(target.value))
+            base0 = self.expr(target.value)
+            base0.dfields = None      # the static contents are no longer known
+            base0.shadow = None
+            base = self.materialise(base0)
             self.expr(target.slice)
             v = self.materialise(av) if not av.is_prim() else self.prim("v")
             self.emit(("store", base.var, fid(ELEM), v.var))
@@ -1228,6 +1240,7 @@ class Lowerer:
                 raise Unsupported("lambda with * / ** parameters")
             saved = self.snapshot_locals()
             self.push()
+            self.no_split = getattr(self, "no_split", 0) + 1
             for p_ in a.posonlyargs + a.args:
                 v = self.tmp(p_.arg + "@lambda")
                 self.emit(("ext", v))
@@ -1236,6 +1249,7 @@ class Lowerer:
             if not r.is_prim() and r.var is None and r.items is not None:
                 self.materialise(r)
             body = self.pop()
+            self.no_split -= 1
             self.frame.locals = saved
             self.emit(("loop", body))
             return AV(ty=PRIM, pyobj=None, has_pyobj=False, bmeth=None, iterkind=None, func=None, display=None, exact=False,
@@ -1353,6 +1367,13 @@ class Lowerer:
         return AV(var=d, ty=ListOf(ety) if kind == "list" else DictOf(ety))
 
     def comprehension(self, e) -> AV:
+        self.no_split = getattr(self, "no_split", 0) + 1     # a loop that is not a statement list: never split inside
+        try:
+            return self._comprehension(e)
+        finally:
+            self.no_split -= 1
+
+    def _comprehension(self, e) -> AV:
         fr = self.frame
         saved = self.snapshot_locals()
         d = self.tmp("comp")
@@ -1790,10 +1811,12 @@ class Lowerer:
             srcs = [a if a.items is None else self.materialise(a) for a in args[1:]]
             if f.func is not None:
                 self.push()
+                self.no_split = getattr(self, "no_split", 0) + 1
                 els = [self.elements(x) for x in srcs]
                 r = self.apply(f, els if name == "map" else els[:1], {}, node)
                 if not r.is_prim():
                     self.materialise(r)
+                self.no_split -= 1
                 self.emit(("loop", self.pop()))
             if name == "filter":
                 return self.build_container([], [srcs[0]], "list")
@@ -1854,6 +1877,9 @@ class Lowerer:
             return AV(var=v, ty=DictOf(PRIM))
         m = self.materialise(recv)
         ety = m.ty[1] if m.ty[0] in ("list", "dict") else UNKNOWN
+        if name in LIST_MUTATORS or name in LIST_POPS:
+            recv.dfields = recv.shadow = None     # the static contents are no longer known
+            m.dfields = m.shadow = None
         if name in LIST_MUTATORS:
             vals = list(args) + list(kwargs.values())
             stored = False
